@@ -15,7 +15,7 @@ RULE = ("value contract on rfc6979.generate_k: == from-the-RFC reference (pinned
         "nonce, next candidate used when r=0/s=0 (toy curves). non-trivial key = (qlen mod 8, hash width vs qlen, digest vs qlen, "
         "extra-entropy class, retry count, rejected-candidate count class)")
 ASSUMPTIONS = ["hmac and hashlib are shared with the library (trusted)", "reference transcription vf/ref/rfc6979_ref.py self-tested on 7 published vectors incl. the 163-bit A.1 example"]
-REQUIRED = {"quick": ["det.toy_retry_with_extra_entropy", "k.small_order", "k.curve_value", "k.random_order", "k.rejected_ge1", "k.retry", "k.extra", "det.repeat", "det.value", "det.toy_retry"]}
+REQUIRED = {"quick": ["reentrant_calls", "det.toy_retry_with_extra_entropy", "k.small_order", "k.curve_value", "k.random_order", "k.rejected_ge1", "k.retry", "k.extra", "det.repeat", "det.value", "det.toy_retry"]}
 EXHAUSTIVE = {"quick": ["every order n in [2,300]: all d for n<=40, boundary d beyond"], "thorough": ["every order n in [2,1024]"]}
 
 
